@@ -126,6 +126,11 @@ func (r *Report) Finish() int {
 	nNew := 0
 	var knownHit []string
 	os.MkdirAll(filepath.Join(VerifDir, "replays"), 0o755)
+	if old, err := filepath.Glob(filepath.Join(VerifDir, "replays", r.Property+"-*.json")); err == nil {
+		for _, f := range old {
+			os.Remove(f)
+		}
+	}
 	for _, v := range r.Violations {
 		if k, ok := open[v.Key()]; ok {
 			fmt.Printf("KNOWN-FINDING: property=%s %s [%s]\n", r.Property, k.What, v.Key())
